@@ -163,3 +163,100 @@ Proof. reflexivity. Qed.
 Definition known_cmds : list str :=
   [c_001; c_JOIN; c_PART; c_KICK; c_QUIT; c_NICK; c_353; c_MODE; c_324; c_TOPIC; c_332; c_352; c_354;
    c_AWAY; c_ACCOUNT; c_CHGHOST; c_004; c_005; c_375; c_372].
+
+Ltac rproj := cbn [r_me r_ident r_host r_chans r_users r_opts r_motd
+  r_set_me r_set_ident_host r_set_chans r_set_users r_set_opts r_set_motd upd_user upd_chan] in *; sproj.
+
+Ltac reduce_cmd c :=
+  repeat match goal with
+  | |- context [streqb c ?b] => let v := eval vm_compute in (streqb c b) in change (streqb c b) with v
+  end; cbv beta iota delta [orb].
+Ltac reduce_cmd_in c H :=
+  repeat match type of H with
+  | context [streqb c ?b] => let v := eval vm_compute in (streqb c b) in change (streqb c b) with v in H
+  end; cbv beta iota delta [orb] in H.
+
+(* what one command has to establish *)
+Definition step_ok (cfg : config) (s : state) (r : ref) (e : event) : Prop :=
+  exists s' o, handle_cmd cfg s e = Ok (s', o) /\ Fresh s' /\ (Inv s' -> Sim s' (ref_gc (ref_cmd r e))).
+
+(* ---- updates of one user's fields ---- *)
+
+Lemma fresh_same s s' : st_channels s' = st_channels s -> st_opts s' = st_opts s -> Fresh s -> Fresh s'.
+Proof. intros Hc Ho F k c. unfold chan_modes, user_prefixes. rewrite Hc, Ho. apply F. Qed.
+
+Lemma update_user_fields s n f :
+  st_nick (update_user s n f) = st_nick s /\ st_ident (update_user s n f) = st_ident s /\
+  st_host (update_user s n f) = st_host s /\ st_motd (update_user s n f) = st_motd s /\
+  st_channels (update_user s n f) = st_channels s /\ st_opts (update_user s n f) = st_opts s.
+Proof. unfold update_user. destruct (lookup_user s n); repeat split; reflexivity. Qed.
+
+Lemma update_user_lookup s n f k :
+  alookup k (st_users (update_user s n f)) =
+  if streqb k (fold n) then option_map f (alookup k (st_users s)) else alookup k (st_users s).
+Proof.
+  unfold update_user, lookup_user. destruct (alookup (fold n) (st_users s)) as [u|] eqn:E; sproj.
+  - rewrite alookup_aset. destruct (streqb k (fold n)) eqn:Ek; [|reflexivity].
+    apply streqb_eq in Ek. subst k. rewrite E. reflexivity.
+  - destruct (streqb k (fold n)) eqn:Ek; [|reflexivity]. apply streqb_eq in Ek. subst k. rewrite E. reflexivity.
+Qed.
+
+Lemma abs_perm_update_user s n f kc kn : (forall u, u_perms (f u) = u_perms u) ->
+  abs_perm (update_user s n f) kc kn = abs_perm s kc kn.
+Proof.
+  intros Hp. unfold abs_perm. rewrite update_user_lookup.
+  destruct (streqb kn (fold n)); [|reflexivity]. destruct (alookup kn (st_users s)); simpl; [rewrite Hp|]; reflexivity.
+Qed.
+
+Lemma simchan_perm s s' k c rc : (forall n, abs_perm s' k n = abs_perm s k n) -> SimChan s k c rc -> SimChan s' k c rc.
+Proof. intros Hp [A B C D]. constructor; try assumption. intros n. rewrite D, Hp. reflexivity. Qed.
+
+Lemma sim_update_user s r n f g : Sim s r ->
+  (forall u, abs_user (f u) = g (abs_user u)) -> (forall u, u_perms (f u) = u_perms u) ->
+  Sim (update_user s n f) (upd_user r n g).
+Proof.
+  intros S Hfg Hp. destruct (update_user_fields s n f) as (E1 & E2 & E3 & E4 & E5 & E6).
+  constructor; unfold upd_user; simpl; rewrite ?E1, ?E2, ?E3, ?E4, ?E6; try apply S.
+  - intros k. rewrite E5. pose proof (sim_chans _ _ S k) as H. unfold opt_rel in *.
+    destruct (alookup k (st_channels s)); destruct (alookup k (r_chans r)); try contradiction; [|exact I].
+    eapply simchan_perm; [|exact H]. intros n0. apply abs_perm_update_user, Hp.
+  - intros k. rewrite alookup_sm_adjust, update_user_lookup. change (key n) with (fold n).
+    destruct (streqb k (fold n)); [|apply S]. rewrite (sim_users _ _ S).
+    destruct (alookup k (st_users s)); simpl; [rewrite Hfg|]; reflexivity.
+Qed.
+
+Lemma fresh_update_user s n f : Fresh s -> Fresh (update_user s n f).
+Proof. destruct (update_user_fields s n f) as (_ & _ & _ & _ & E5 & E6). apply fresh_same; assumption. Qed.
+
+Lemma step_user_update cfg s r e n f g : Sim s r -> RWf r -> Fresh s ->
+  handle_cmd cfg s e = Ok (update_user s n f, []) -> ref_cmd r e = upd_user r n g ->
+  (forall u, abs_user (f u) = g (abs_user u)) -> (forall u, u_perms (f u) = u_perms u) ->
+  step_ok cfg s r e.
+Proof.
+  intros S W F Hh Hr Hfg Hp. exists (update_user s n f), []. split; [exact Hh|]. split; [apply fresh_update_user, F|].
+  intros I'. rewrite Hr. apply sim_gc_of_sim; [exact I'|apply rwf_upd_user, W|]. apply sim_update_user; assumption.
+Qed.
+
+(* nothing changes *)
+Lemma step_noop cfg s r e o : Sim s r -> RWf r -> Fresh s ->
+  handle_cmd cfg s e = Ok (s, o) -> ref_cmd r e = r -> step_ok cfg s r e.
+Proof.
+  intros S W F Hh Hr. exists s, o. split; [exact Hh|]. split; [exact F|]. intros I'. rewrite Hr.
+  apply sim_gc_of_sim; assumption.
+Qed.
+
+(* the account tag *)
+Lemma tag_sim s r e : Sim s r -> Sim (handle_tags s e) (ref_tag r e).
+Proof.
+  intros S. unfold handle_tags, ref_tag. destruct (e_src e) as [src|]; [|exact S]. destruct (e_account_tag e) as [a|]; [|exact S].
+  apply sim_update_user; [exact S| |]; intros u; reflexivity.
+Qed.
+
+Lemma tag_fresh s e : Fresh s -> Fresh (handle_tags s e).
+Proof. intros F. unfold handle_tags. destruct (e_src e); [|exact F]. destruct (e_account_tag e); [|exact F]. apply fresh_update_user, F. Qed.
+
+Lemma tag_inv s e : Inv s -> Inv (handle_tags s e).
+Proof.
+  intros I. unfold handle_tags. destruct (e_src e); [|exact I]. destruct (e_account_tag e); [|exact I].
+  eapply same_struct_inv; [apply update_user_same|exact I]. intros u; split; reflexivity.
+Qed.
